@@ -71,13 +71,19 @@ def gen_cases(rng, tier):
             if tool in ARCHIVERS:
                 cases.append({"tool": tool, "launcher": la, "scenario": "noaction", "variant": rng.choice(["plain", "verbose"])})
                 acts = ["-c", "-t", "-x", "--create", "--list", "--extract"] + (["-r", "--add"] if tool != "moto_tar" else [])
+                act_of = {"-c": "create", "--create": "create", "-t": "list", "--list": "list", "-x": "extract", "--extract": "extract", "-r": "add", "--add": "add"}
                 a, b = rng.sample(acts, 2)
-                while a.lstrip("-")[0] == b.lstrip("-")[0] or {a.lstrip("-")[:1], b.lstrip("-")[:1]} == {"a", "r"}:
+                while act_of[a] == act_of[b]:
                     a, b = rng.sample(acts, 2)
                 cases.append({"tool": tool, "launcher": la, "scenario": "twoactions", "variant": [a, b]})
                 if tool != "moto_tar":
-                    wrong = rng.choice([".k7", ".fd" if tool == "moto_sdar" else ".sd", ".img", ""])
-                    cases.append({"tool": tool, "launcher": la, "scenario": "wrongext", "variant": [rng.choice(["-c", "-t", "-x", "-r"]), wrong]})
+                    good = ARCHIVERS[tool][1:]
+                    other = "fd" if good == "sd" else "sd"
+                    # ordinary wrong extensions, and ones that merely end with / start with / contain the right letters
+                    pool = [".k7", "." + other, ".img", "", "." + "h" + good, ".x" + good.upper(), "." + good + "x", "." + good[0], good, "." + good + ".bak", ".." , "." + good + " "]
+                    picks = [pool[1], pool[4], rng.choice(pool), rng.choice(pool[5:])]
+                    for wrong in picks:
+                        cases.append({"tool": tool, "launcher": la, "scenario": "wrongext", "variant": [rng.choice(["-c", "-t", "-x", "-r"]), wrong]})
                 for into in (False, True):
                     cases.append({"tool": tool, "launcher": la, "scenario": "extract", "into": into, "verbose": rng.random() < 0.5, "sub": rng.choice(["", "arc/", "a.b/"])})
                     cases.append({"tool": tool, "launcher": la, "scenario": "create", "into": into, "verbose": rng.random() < 0.5, "sub": rng.choice(["arc/", "a.b/"])})
